@@ -90,3 +90,19 @@ Print Assumptions c16_completes_abstract.
 Theorem c16_progress_monotone_abstract : forall n s p, (p <= rounds n p s)%nat.
 Proof. exact rounds_mono. Qed.
 Print Assumptions c16_progress_monotone_abstract.
+
+(* the same instantiated with the flight tables of the library's handshakes (full / client
+   authentication / resumed, with or without ServerKeyExchange): 6, 6 and 5 alternating flights;
+   the tables are compared with the flights of a clean live run on every check *)
+Theorem c16_completes_modes_abstract : forall ske m k blocks,
+  length blocks = nflights ske m -> Forall (block_fair (nflights ske m)) blocks ->
+  Forall (fun b => (length b <= k)%nat) blocks ->
+  both_done (nflights ske m) (rounds (nflights ske m) 0%nat (concat blocks)) = true /\
+  (length (concat blocks) <= k * nflights ske m)%nat.
+Proof. exact modes_complete. Qed.
+Print Assumptions c16_completes_modes_abstract.
+
+Theorem c16_flights_alternate : forall ske m, alternating Client (map fst (flights ske m)) = true.
+Proof. exact flights_alternate. Qed.
+Print Assumptions c16_flights_alternate.
+
